@@ -31,9 +31,51 @@ class Path:
         return [e for e in self.events if e[0] == "call" and (pred is None or pred(e))]
 
 
+CONTAINERS = {
+    "std::vec::Vec", "std::collections::HashMap", "std::collections::BTreeMap", "std::collections::HashSet",
+    "std::collections::BTreeSet", "std::string::String", "std::collections::VecDeque", "linked_hash_set::LinkedHashSet",
+}
+
+
 class Sym:
-    def __init__(self, fn, copies=False, extra_peel=(), max_paths=20000, no_peel=()):
+    def __init__(self, fn, copies=False, extra_peel=(), max_paths=20000, no_peel=(), stateful=True):
         self.fn = fn
+        self.stateful = stateful
+        # named mutable locals holding a container keep their identity (their content is state)
+        self.stateful_locals = set()
+        if stateful:
+            for l, (tix, name, user, mut) in enumerate(fn.locals):
+                if name and mut and l > fn.argc and fn.facts.types[tix].get("adt") in CONTAINERS:
+                    self.stateful_locals.add(l)
+        self.container_locals = {l for l, (tix, name, user, mut) in enumerate(fn.locals) if fn.facts.types[tix].get("adt") in CONTAINERS}
+        # temp -> named locals it mutably borrows (directly, or through a closure aggregate)
+        self.mut_alias = {}
+        changed = True
+        while changed:
+            changed = False
+            for bi, si, st in fn.assigns():
+                l, projs = st["p"]
+                if projs:
+                    continue
+                r = st["r"]
+                new = set()
+                if r["k"] == "ref" and r.get("mut") and "*" not in r["p"][1]:
+                    new.add(r["p"][0])
+                    new |= self.mut_alias.get(r["p"][0], set())
+                elif r["k"] == "ref" and r.get("mut"):
+                    new |= self.mut_alias.get(r["p"][0], set())
+                elif r["k"] in ("use", "cast"):
+                    pl = op_place(r["o"])
+                    if pl is not None:
+                        new |= self.mut_alias.get(pl[0], set())
+                elif r["k"] == "agg":
+                    for o in r["fields"]:
+                        pl = op_place(o)
+                        if pl is not None:
+                            new |= self.mut_alias.get(pl[0], set())
+                if new and not new <= self.mut_alias.get(l, set()):
+                    self.mut_alias.setdefault(l, set()).update(new)
+                    changed = True
         self.copies = copies
         self.extra_peel = set(extra_peel)
         self.no_peel = set(no_peel)
@@ -180,6 +222,9 @@ class Sym:
                     if not projs:
                         env = dict(env)
                         env[l] = val
+                        if l in self.stateful_locals:
+                            events = events + [("init", l, fn.local_name(l), val, b, span_line(st["s"]))]
+                            del env[l]
                         # forget stale partial knowledge about l
                         for key in [x for x in env if isinstance(x, tuple) and x[0] == l]:
                             del env[key]
@@ -229,6 +274,19 @@ class Sym:
                     key = "<fnptr>"
                     val = ("call", key, (self.operand(env, t["fp"]),) + args)
                 events = events + [("call", key, args, val, b, span_line(t["s"]), cal)]
+                # a callee that received `&mut x` (possibly inside a closure) may have changed x
+                hv = set()
+                for a in t["args"]:
+                    pl = op_place(a)
+                    if pl is not None:
+                        hv |= self.mut_alias.get(pl[0], set())
+                if hv:
+                    env = dict(env)
+                    for x in hv:
+                        if fn.local_name(x) and x not in self.stateful_locals and x not in self.container_locals:
+                            env[x] = ("havoc", x, b)
+                            for kk in [y for y in env if isinstance(y, tuple) and len(y) == 2 and y[0] == x and isinstance(y[1], tuple)]:
+                                del env[kk]
                 if t.get("t") is None:
                     self._finish(conds, events, ("diverge", b), blocks)
                     return
@@ -236,6 +294,9 @@ class Sym:
                 env = dict(env)
                 if not projs:
                     env[l] = val
+                    if l in self.stateful_locals:
+                        events = events + [("init", l, fn.local_name(l), val, b, span_line(t["s"]))]
+                        del env[l]
                     for kk in [x for x in env if isinstance(x, tuple) and x[0] == l]:
                         del env[kk]
                 else:
@@ -420,3 +481,73 @@ def for_loops(fn, prov=None):
         lp.source = recv
         out.append(lp)
     return out
+
+
+# ----------------------------------------------------------------------------------------
+# boolean decision tables
+# ----------------------------------------------------------------------------------------
+def eval_bool(e, assign, canon):
+    """Evaluate a boolean expression under an assignment of canonical atoms.
+    Returns True/False, or None when it depends on an unassigned atom."""
+    if e[0] == "const" and isinstance(e[1], bool):
+        return e[1]
+    if e[0] == "const" and e[1] in (0, 1):
+        return bool(e[1])
+    if e[0] == "un" and e[1] == "Not":
+        v = eval_bool(e[2], assign, canon)
+        return None if v is None else (not v)
+    if e[0] == "bin" and e[1] in ("BitAnd", "BitOr"):
+        a = eval_bool(e[2], assign, canon)
+        b = eval_bool(e[3], assign, canon)
+        if e[1] == "BitAnd":
+            if a is False or b is False:
+                return False
+            if a is None or b is None:
+                return None
+            return True
+        if a is True or b is True:
+            return True
+        if a is None or b is None:
+            return None
+        return False
+    c = canon(e)
+    if c is None:
+        return None
+    name, pol = c
+    if name in assign:
+        return assign[name] == pol
+    return None
+
+
+def path_assignment(path, canon, strict=None):
+    """Canonical assignment {atom name: bool} of a path's conditions; conditions that `canon`
+    does not recognise are returned separately."""
+    assign = {}
+    other = []
+    for atom, v in path.conds:
+        c = canon(atom)
+        if c is None:
+            other.append((atom, v))
+            continue
+        name, pol = c
+        if isinstance(v, int) and not isinstance(v, bool) and v in (0, 1):
+            val = bool(v)
+        elif isinstance(v, bool):
+            val = v
+        else:
+            # discriminant-valued atom: canon returns (name, variant that means True)
+            val = (v == pol)
+            assign[name] = val
+            continue
+        assign[name] = (val == pol)
+    return assign, other
+
+
+def completions(assign, atoms):
+    free = [a for a in atoms if a not in assign]
+    n = len(free)
+    for m in range(1 << n):
+        d = dict(assign)
+        for i, a in enumerate(free):
+            d[a] = bool((m >> i) & 1)
+        yield d
